@@ -82,6 +82,16 @@ scenario Sub():
         probe.ev("Sub.compose")
         wait
         wait
+scenario Bg():
+    setup:
+        probe.ev("Bg.setup")
+        record probe.rec("bgrec") as bgrec
+        terminate simulation when probe.cond("bgts")
+        terminate when probe.cond("bgtw")
+    compose:
+        while True:
+            probe.ev("Bg.compose")
+            wait
 scenario Main():
     setup:
         probe.ev("Main.setup")
@@ -92,7 +102,7 @@ scenario Main():
     compose:
         probe.ev("Main.compose")
         wait
-        do Sub()
+        do Sub(), Bg()
         wait
         wait
 '''
@@ -127,7 +137,8 @@ new Object at (Range(3, 4), 5), with allowCollisions True
 
 PROGRAMS = [
     dict(name="flat", text=FLAT, tables={"c1": [False, True, False], "tw": [False], "foo": [3]}, maxSteps=6, scenario=None),
-    dict(name="modular", text=MODULAR, tables={"thingfoo": [1]}, maxSteps=8, scenario="Main", override=("fb", 0, (3, 4))),
+    dict(name="modular", text=MODULAR, tables={"thingfoo": [1], "bgts": [False], "bgtw": [False]}, maxSteps=8, scenario="Main", override=("fb", 0, (3, 4))),
+    dict(name="flat2d", text=FLAT.replace("(Range(8, 12), 0, 0)", "(Range(8, 12), 0)").replace("at (0, 0, 0)", "at (0, 0)"), tables={"c1": [False, True, False], "tw": [False], "foo": [3]}, maxSteps=6, scenario=None, mode2D=True),
     dict(name="nested", text=NESTED, tables={"c2": [False, False, True, False], "stop": [False], "ts": [False] * 5 + [True]}, maxSteps=7, scenario=None),
 ]
 
@@ -190,7 +201,7 @@ def seeded(k=7):
 def do_compile(prog):
     probe.STATE.reset(tables=prog["tables"], default=True)
     kw = {"scenario": prog["scenario"]} if prog["scenario"] else {}
-    return dyn.compile_scenario(prog["text"], **kw)
+    return dyn.compile_scenario(prog["text"], mode2D=bool(prog.get("mode2D")), **kw)
 
 
 def do_generate(prog, scenario):
@@ -376,7 +387,7 @@ def check_fault(prog, ref, scenario, scene, phase, i, kname, factory, tier, out)
         try:
             import scenic
 
-            scenic.scenarioFromString(prog["text"], **kw)
+            scenic.scenarioFromString(prog["text"], mode2D=bool(prog.get("mode2D")), **kw)
             key = "compiled"
         except Exception as e:  # noqa: BLE001
             key = "raised:" + type(e).__name__
